@@ -240,6 +240,10 @@ def _elem_of_valid(t: Term, G: Term, depth: int = 0) -> bool:
         base, idx = t[1], t[2]
         if base[0] == "elem" and is_call_to(base[1], "zip") and idx[0] == "const" and isinstance(idx[1], int) and idx[1] < len(base[1][2]):
             return _seq_of_valid(base[1][2][idx[1]], G, depth + 1)
+        # position i of a pair picked out of zip(A, B, ...) by max / min / next / choice is an element of the i-th list
+        if base[0] == "call" and (is_global(base[1], "max", "min", "next") or (base[1][0] == "attr" and base[1][2] == "choice")) and base[2] \
+                and is_call_to(base[2][0], "zip") and idx[0] == "const" and isinstance(idx[1], int) and 0 <= idx[1] < len(base[2][0][2]):
+            return _seq_of_valid(base[2][0][2][idx[1]], G, depth + 1)
         if base[0] == "elem" and is_call_to(base[1], "enumerate") and idx == ("const", 1):
             return _seq_of_valid(base[1][2][0], G, depth + 1)
         if idx[0] != "slice":
